@@ -168,6 +168,109 @@ theorem fenced_walk (m : Msg) (g : Bool) (r : Nat) (c : Ctx) (h : Fenced (m.int 
   · simp [Untouched, unpinned, pinned]
   · rw [unpinned_pinned_getD r (pinned r c) hlen]
 
+/-! ### two-fid requests: the first fid fenced, the second bound -/
+
+/-- `fid` is bound to the live reference `t` (any path node) -/
+structure Bound (fid t : Nat) (c : Ctx) : Prop where
+  bound : (c.st.fids.find? (·.1 == (c.conn, fid))).map (·.2) = some t
+  inRange : t < c.st.refs.length
+  live : (c.st.refs.getD t default).refs ≥ 1
+
+theorem getD_set_ref (l : List Ref) (n k : Nat) (v : Ref) :
+    (l.set n v).getD k default = if n = k ∧ n < l.length then v else l.getD k default := by
+  simp only [List.getD_eq_getElem?_getD, List.getElem?_set]
+  by_cases h : n = k
+  · subst h
+    by_cases hl : n < l.length
+    · simp [hl]
+    · simp [hl]
+  · simp [h]
+
+/-- pinning and unpinning a reference in range gives back every reference as it was -/
+theorem unpinned_pinned_all (t k : Nat) (c : Ctx) (h : t < c.st.refs.length) :
+    (unpinned t (pinned t c)).st.refs.getD k default = c.st.refs.getD k default := by
+  by_cases hk : t = k
+  · subst hk; exact unpinned_pinned_getD t c h
+  · simp only [unpinned, pinned, getD_set_ref, hk, false_and, ↓reduceIte]
+
+theorem pinned_other (t k : Nat) (c : Ctx) (hk : t ≠ k) :
+    (pinned t c).st.refs.getD k default = c.st.refs.getD k default := by
+  simp only [pinned, getD_set_ref, hk, false_and, ↓reduceIte]
+
+/-- a `LookupFID; defer DecRef; body` on a bound fid whose body refuses at once: the result
+context is the one we started from with the count raised and lowered again -/
+theorem withFid_refuse (fid t e : Nat) (body : Nat → M Reply) (c : Ctx) (h : Bound fid t c)
+    (hb : body t (pinned t c) = .ok (rerr e) (pinned t c)) :
+    withFid fid body c = .ok (rerr e) (unpinned t (pinned t c)) := by
+  have hl : lookupFid fid c = .ok (some t) (pinned t c) := by
+    unfold lookupFid lookupFidRaw getS getConn incRef setRef modS
+    simp [bind, pure, h.bound, pinned]
+  have hx := pinned_getD t c h.inRange
+  have hne : ((pinned t c).st.refs.getD t default).refs ≠ 1 := by
+    rw [hx]
+    have hlive := h.live
+    show (c.st.refs.getD t default).refs + 1 ≠ 1
+    omega
+  unfold withFid
+  simp only [bind, hl, finally', hb, decRefU_noclose t _ hne]
+
+/-- the node-deleted test of a body evaluated inside two nested pins -/
+theorem deleted_pinned2 {fid r : Nat} {c : Ctx} (h : Fenced fid r c) (t : Nat) :
+    ((pinned t (pinned r c)).st.nodes.getD ((pinned t (pinned r c)).st.refs.getD r default).node default).deleted = true := by
+  have hlen : r < (pinned r c).st.refs.length := by simp [pinned]; exact h.inRange
+  by_cases ht : t = r
+  · subst ht
+    rw [pinned_getD t (pinned t c) hlen, pinned_getD t c h.inRange]; exact h.deleted
+  · rw [pinned_other t r _ ht, pinned_getD r c h.inRange]; exact h.deleted
+
+/-- **Trenameat through a fenced source directory fid** (the target directory fid bound): EINVAL,
+no backend call, tape, fid table and path tree untouched. -/
+theorem fenced_renameat (m : Msg) (r t : Nat) (c : Ctx) (ho : safeName (m.str 1) = true) (hn : safeName (m.str 3) = true)
+    (h : Fenced (m.int 0) r c) (ht : Bound (m.int 2) t (pinned r c)) :
+    ∃ c', hTrenameat m c = .ok (rerr EINVAL) c' ∧ Untouched c c' := by
+  unfold hTrenameat
+  simp only [ho, hn, dite_true]
+  refine withFid_fenced' _ r _ _ c h ?_
+  have hlen : r < (pinned r c).st.refs.length := by simp [pinned]; exact h.inRange
+  refine ⟨unpinned t (pinned t (pinned r c)), ?_, ?_, ?_⟩
+  · refine withFid_refuse _ t _ _ _ ht ?_
+    have hd := deleted_pinned2 h t
+    simp only [bind, pure, getRef_eval, isDeleted_eval, hd, Bool.true_or, ↓reduceIte]
+  · simp [Untouched, unpinned, pinned]
+  · exact unpinned_pinned_all t r (pinned r c) ht.inRange
+
+/-- **Trename of a fenced fid** (the target directory fid bound): EINVAL before the backend –
+whether the fid is a root ("Don't allow a root rename") or not (deleted path). -/
+theorem fenced_rename (m : Msg) (r t : Nat) (c : Ctx) (hn : safeName (m.str 2) = true)
+    (h : Fenced (m.int 0) r c) (ht : Bound (m.int 1) t (pinned r c)) :
+    ∃ c', hTrename m c = .ok (rerr EINVAL) c' ∧ Untouched c c' := by
+  unfold hTrename
+  simp only [hn, dite_true]
+  refine withFid_fenced' _ r _ _ c h ?_
+  refine ⟨unpinned t (pinned t (pinned r c)), ?_, ?_, ?_⟩
+  · refine withFid_refuse _ t _ _ _ ht ?_
+    have hd := deleted_pinned2 h t
+    simp only [bind, pure, getRef_eval]
+    cases hp : ((pinned t (pinned r c)).st.refs.getD r default).parent with
+    | none => rfl
+    | some p => simp only [bind, pure, isDeleted_eval, hd, Bool.true_or, ↓reduceIte]
+  · simp [Untouched, unpinned, pinned]
+  · exact unpinned_pinned_all t r (pinned r c) ht.inRange
+
+/-- **Tlink into a fenced directory fid** (the target fid bound): EINVAL before the backend. -/
+theorem fenced_link (m : Msg) (r t : Nat) (c : Ctx) (hn : safeName (m.str 2) = true)
+    (h : Fenced (m.int 0) r c) (ht : Bound (m.int 1) t (pinned r c)) :
+    ∃ c', hTlink m c = .ok (rerr EINVAL) c' ∧ Untouched c c' := by
+  unfold hTlink
+  simp only [hn, dite_true]
+  refine withFid_fenced' _ r _ _ c h ?_
+  refine ⟨unpinned t (pinned t (pinned r c)), ?_, ?_, ?_⟩
+  · refine withFid_refuse _ t _ _ _ ht ?_
+    have hd := deleted_pinned2 h t
+    simp only [bind, pure, dirGuard, getRef_eval, isDeleted_eval, hd, Bool.true_or, ↓reduceIte]
+  · simp [Untouched, unpinned, pinned]
+  · exact unpinned_pinned_all t r (pinned r c) ht.inRange
+
 /-! ### unlink / overwrite marks the whole subtree deleted -/
 
 /-- the effect of the marking pass: only `deleted` flags change, and only from false to true -/
